@@ -170,6 +170,15 @@ func (d *structDecoder) tryOptimize() {
 }
 
 // decode from '\uXXXX'
+func isHexDigits(b []byte) bool {
+	for _, c := range b {
+		if !(('0' <= c && c <= '9') || ('a' <= c && c <= 'f') || ('A' <= c && c <= 'F')) {
+			return false
+		}
+	}
+	return true
+}
+
 func decodeKeyCharByUnicodeRune(buf []byte, cursor int64) ([]byte, int64, error) {
 	const defaultOffset = 4
 	const surrogateOffset = 6
@@ -178,10 +187,14 @@ func decodeKeyCharByUnicodeRune(buf []byte, cursor int64) ([]byte, int64, error)
 		return nil, 0, errors.ErrUnexpectedEndOfJSON("escaped string", cursor)
 	}
 
+	if !isHexDigits(buf[cursor : cursor+defaultOffset]) {
+		// \u is followed by four hexadecimal digits (RFC 8259 section 7)
+		return nil, 0, errors.ErrInvalidCharacter(buf[cursor], "\\u hexadecimal character escape", cursor)
+	}
 	r := unicodeToRune(buf[cursor : cursor+defaultOffset])
 	if utf16.IsSurrogate(r) {
 		cursor += defaultOffset
-		if cursor+surrogateOffset >= int64(len(buf)) || buf[cursor] != '\\' || buf[cursor+1] != 'u' {
+		if cursor+surrogateOffset >= int64(len(buf)) || buf[cursor] != '\\' || buf[cursor+1] != 'u' || !isHexDigits(buf[cursor+2:cursor+surrogateOffset]) {
 			// lone surrogate: only the four hex digits have been consumed
 			return []byte(string(unicode.ReplacementChar)), cursor - 1, nil
 		}
@@ -269,15 +282,20 @@ func decodeKeyByBitmapUint8(d *structDecoder, buf []byte, cursor int64) (int64, 
 					for _, c := range chars {
 						curBit &= bitmap[keyIdx][largeToSmallTable[c]]
 						if curBit == 0 {
-							return decodeKeyNotFound(b, cursor)
+							// the escape has been checked: go on behind it
+							return decodeKeyNotFound(b, nextCursor+1)
 						}
 						keyIdx++
 					}
 					cursor = nextCursor
 				default:
+					if c < 0x20 {
+						// control characters must be escaped (RFC 8259 section 7)
+						return 0, nil, errors.ErrInvalidCharacter(c, "string literal", cursor)
+					}
 					curBit &= bitmap[keyIdx][largeToSmallTable[c]]
 					if curBit == 0 {
-						return decodeKeyNotFound(b, cursor)
+						return decodeKeyNotFound(b, cursor+1)
 					}
 					keyIdx++
 				}
@@ -334,15 +352,20 @@ func decodeKeyByBitmapUint16(d *structDecoder, buf []byte, cursor int64) (int64,
 					for _, c := range chars {
 						curBit &= bitmap[keyIdx][largeToSmallTable[c]]
 						if curBit == 0 {
-							return decodeKeyNotFound(b, cursor)
+							// the escape has been checked: go on behind it
+							return decodeKeyNotFound(b, nextCursor+1)
 						}
 						keyIdx++
 					}
 					cursor = nextCursor
 				default:
+					if c < 0x20 {
+						// control characters must be escaped (RFC 8259 section 7)
+						return 0, nil, errors.ErrInvalidCharacter(c, "string literal", cursor)
+					}
 					curBit &= bitmap[keyIdx][largeToSmallTable[c]]
 					if curBit == 0 {
-						return decodeKeyNotFound(b, cursor)
+						return decodeKeyNotFound(b, cursor+1)
 					}
 					keyIdx++
 				}
@@ -354,21 +377,43 @@ func decodeKeyByBitmapUint16(d *structDecoder, buf []byte, cursor int64) (int64,
 	}
 }
 
+// decodeKeyNotFound skips the rest of a key that names no field. The key is still a JSON string:
+// the character at cursor (the one that ruled out the last candidate) and everything up to the
+// closing quote may not be a raw control character, and escapes must be valid.
 func decodeKeyNotFound(b unsafe.Pointer, cursor int64) (int64, *structFieldSet, error) {
 	for {
-		cursor++
-		switch char(b, cursor) {
-		case '"':
+		c := char(b, cursor)
+		switch {
+		case c == '"':
 			cursor++
 			return cursor, nil, nil
-		case '\\':
+		case c == '\\':
 			cursor++
-			if char(b, cursor) == nul {
+			switch char(b, cursor) {
+			case '"', '\\', '/', 'b', 'f', 'n', 'r', 't':
+			case 'u':
+				for i := int64(1); i <= 4; i++ {
+					h := char(b, cursor+i)
+					if !(('0' <= h && h <= '9') || ('a' <= h && h <= 'f') || ('A' <= h && h <= 'F')) {
+						if h == nul {
+							return 0, nil, errors.ErrUnexpectedEndOfJSON("string", cursor+i)
+						}
+						return 0, nil, errors.ErrInvalidCharacter(h, "\\u hexadecimal character escape", cursor+i)
+					}
+				}
+				cursor += 4
+			case nul:
 				return 0, nil, errors.ErrUnexpectedEndOfJSON("string", cursor)
+			default:
+				return 0, nil, errors.ErrInvalidCharacter(char(b, cursor), "string escape code", cursor)
 			}
-		case nul:
+		case c == nul:
 			return 0, nil, errors.ErrUnexpectedEndOfJSON("string", cursor)
+		case c < 0x20:
+			// control characters must be escaped (RFC 8259 section 7)
+			return 0, nil, errors.ErrInvalidCharacter(c, "string literal", cursor)
 		}
+		cursor++
 	}
 }
 
@@ -462,6 +507,11 @@ func decodeKeyByBitmapUint8Stream(d *structDecoder, s *Stream) (*structFieldSet,
 						keyIdx++
 					}
 				default:
+					if c < 0x20 {
+						// control characters must be escaped (RFC 8259 section 7)
+						s.cursor = cursor
+						return nil, "", errors.ErrInvalidCharacter(c, "string literal", s.totalOffset())
+					}
 					curBit &= bitmap[keyIdx][largeToSmallTable[c]]
 					if curBit == 0 {
 						s.cursor = cursor
@@ -549,6 +599,11 @@ func decodeKeyByBitmapUint16Stream(d *structDecoder, s *Stream) (*structFieldSet
 						keyIdx++
 					}
 				default:
+					if c < 0x20 {
+						// control characters must be escaped (RFC 8259 section 7)
+						s.cursor = cursor
+						return nil, "", errors.ErrInvalidCharacter(c, "string literal", s.totalOffset())
+					}
 					curBit &= bitmap[keyIdx][largeToSmallTable[c]]
 					if curBit == 0 {
 						s.cursor = cursor
@@ -577,9 +632,13 @@ func decodeKeyCharByUnicodeRuneStream(s *Stream) ([]byte, error) {
 		return nil, errors.ErrInvalidCharacter(s.char(), "escaped unicode char", s.totalOffset())
 	}
 
+	if !isHexDigits(s.buf[s.cursor : s.cursor+defaultOffset]) {
+		// \u is followed by four hexadecimal digits (RFC 8259 section 7)
+		return nil, errors.ErrInvalidCharacter(s.char(), "\\u hexadecimal character escape", s.totalOffset())
+	}
 	r := unicodeToRune(s.buf[s.cursor : s.cursor+defaultOffset])
 	if utf16.IsSurrogate(r) {
-		if !readAtLeast(s, surrogateOffset, &p) || s.buf[s.cursor+defaultOffset] != '\\' || s.buf[s.cursor+defaultOffset+1] != 'u' {
+		if !readAtLeast(s, surrogateOffset, &p) || s.buf[s.cursor+defaultOffset] != '\\' || s.buf[s.cursor+defaultOffset+1] != 'u' || !isHexDigits(s.buf[s.cursor+defaultOffset+2:s.cursor+surrogateOffset]) {
 			// lone surrogate: only the four hex digits are consumed
 			s.cursor += defaultOffset - 1
 			return []byte(string(unicode.ReplacementChar)), nil
@@ -629,32 +688,51 @@ RETRY:
 }
 
 func decodeKeyNotFoundStream(s *Stream, start int64) (*structFieldSet, string, error) {
+	// the rest of a key that names no field is still a JSON string: no raw control character,
+	// only valid escapes. The two flags survive a refill of the window.
 	buf, cursor, p := s.stat()
+	escaped := false // the character before was an unescaped backslash
+	hexLeft := 0     // hexadecimal digits still expected behind \u
 	for {
 		cursor++
-		switch char(p, cursor) {
-		case '"':
-			b := buf[start:cursor]
-			key := *(*string)(unsafe.Pointer(&b))
-			cursor++
-			s.cursor = cursor
-			return nil, key, nil
-		case '\\':
-			cursor++
-			if char(p, cursor) == nul {
-				s.cursor = cursor
-				if !s.read() {
-					return nil, "", errors.ErrUnexpectedEndOfJSON("string", s.totalOffset())
-				}
-				// the cursor stays on the escaped character, which the next round skips
-				buf, cursor, p = s.stat()
-			}
-		case nul:
+		c := char(p, cursor)
+		if c == nul {
 			s.cursor = cursor
 			if !s.read() {
 				return nil, "", errors.ErrUnexpectedEndOfJSON("string", s.totalOffset())
 			}
 			buf, cursor, p = s.statForRetry()
+			continue
+		}
+		switch {
+		case hexLeft > 0:
+			if !(('0' <= c && c <= '9') || ('a' <= c && c <= 'f') || ('A' <= c && c <= 'F')) {
+				s.cursor = cursor
+				return nil, "", errors.ErrInvalidCharacter(c, "\\u hexadecimal character escape", s.totalOffset())
+			}
+			hexLeft--
+		case escaped:
+			escaped = false
+			switch c {
+			case '"', '\\', '/', 'b', 'f', 'n', 'r', 't':
+			case 'u':
+				hexLeft = 4
+			default:
+				s.cursor = cursor
+				return nil, "", errors.ErrInvalidCharacter(c, "string escape code", s.totalOffset())
+			}
+		case c == '"':
+			b := buf[start:cursor]
+			key := *(*string)(unsafe.Pointer(&b))
+			cursor++
+			s.cursor = cursor
+			return nil, key, nil
+		case c == '\\':
+			escaped = true
+		case c < 0x20:
+			// control characters must be escaped (RFC 8259 section 7)
+			s.cursor = cursor
+			return nil, "", errors.ErrInvalidCharacter(c, "string literal", s.totalOffset())
 		}
 	}
 }
